@@ -39,6 +39,11 @@ func init() {
 			return
 		}
 		ruleActiveFlushed(r, "C09.ACTIVE", k)
+		// a segment written by Flush must load into the configured templates after a restart: the parameters the readers
+		// compare are fixed at construction (FMT12 over all serialisable kinds)
+		for _, sk := range serKinds(r.W) {
+			ruleCtorParamsImmutable(r, "C09.FMT12", sk)
+		}
 		ruleDurabilityErrors(r, "C09.ERR", k)
 		ruleSegmentParts(r, "C09.PARTS", k)
 		ruleFlushOrdering(r, "C09.SEQ.flush", k)
@@ -66,6 +71,8 @@ func init() {
 		ruleWhoMayWriteFiles(r, "C10.OLD", k)
 		ruleCompactOrdering(r, "C10", k)
 		ruleSegmentIDs(r, "C10.ID", k)
+		// "a Flush that completed is durable when the crash comes": the rotation guard and the counter it reads (C09.ACTIVE)
+		ruleActiveFlushed(r, "C10.ACTIVE", k)
 		ruleTemplates(r, "C10.TMPL")
 		ruleFMT(r, "C10", false, false, false, true, false, false, false, false)
 		r.FloorCheck("C10.OPEN", 3)
